@@ -3,7 +3,7 @@
 # passes, demo passes without / fails with the change), then run the named checks against that worktree.
 ID=$1; V=$2; shift 2
 OUT=/tmp/mut/$ID-out/$V
-WT=/tmp/evalwt
+WT=${WT:-/tmp/evalwt}
 export GOFLAGS=-mod=mod GOPROXY=off GOSUMDB=off
 cd $WT && git checkout -q -- . && git clean -fdq
 RACE=""; [ "$ID" = C18 ] && RACE="-race"
@@ -16,14 +16,14 @@ modflag() {
   own=$(ls $OUT/demo/$m/*.mod 2>/dev/null | head -1)
   if [ -n "$own" ]; then MF="-modfile=$(basename $own)"
   elif [ "$m" != protocol ] && grep -q modfile $OUT/demo/RUN.txt 2>/dev/null; then
-    D=$(mktemp -d /tmp/mf.XXXXXX); cp $WT/$m/go.mod $D/go.mod; cat $WT/$m/go.sum $WT/protocol/go.sum $WT/shared/go.sum 2>/dev/null | sort -u > $D/go.sum
+    D=$(mktemp -d /tmp/mf-$(basename $WT).XXXXXX); cp $WT/$m/go.mod $D/go.mod; cat $WT/$m/go.sum $WT/protocol/go.sum $WT/shared/go.sum 2>/dev/null | sort -u > $D/go.sum
     printf '\nreplace github.com/cuteLittleDevil/go-jt808/protocol => %s/protocol\nreplace github.com/cuteLittleDevil/go-jt808/shared => %s/shared\n' $WT $WT >> $D/go.mod
     MF="-modfile=$D/go.mod"
   fi
   echo "$MF"
 }
 TAGS=""; grep -q -- "-tags" $OUT/demo/RUN.txt 2>/dev/null && TAGS="-tags $(grep -o -- '-tags[= ][a-z_]*' $OUT/demo/RUN.txt | head -1 | sed 's/-tags[= ]//')"
-rundemo() { for m in $mods; do (cd $WT/$m && timeout 900 go test $RACE $TAGS $(modflag $m) -vet=off -count=1 -run 'MutDemo' ./... 2>&1 | tail -3 | tr '\n' ' '); done; rm -rf /tmp/mf.*; }
+rundemo() { for m in $mods; do (cd $WT/$m && timeout 900 go test $RACE $TAGS $(modflag $m) -vet=off -count=1 -run 'MutDemo' ./... 2>&1 | tail -3 | tr '\n' ' '); done; rm -rf /tmp/mf-$(basename $WT).*; }
 echo "[demo without change] $(rundemo)"
 git apply $OUT/patch.diff || { echo "PATCH DOES NOT APPLY"; exit 1; }
 B=ok; for m in protocol service attachment terminal; do (cd $WT/$m && go build ./... && go vet ./... ) >/dev/null 2>&1 || B="BUILD/VET FAIL in $m"; done
@@ -37,7 +37,7 @@ echo "[demo with change] $(rundemo)"
 find $WT -name 'mutdemo*' -delete; git -C $WT checkout -q -- '*.sum' 2>/dev/null
 cd /verif
 for P in "$@"; do
-  O=$(VERIF_REPO=$WT VERIF_EVIDENCE_DIR=/tmp/ev-wt VERIF_WORKERS=${VERIF_WORKERS:-8} ./bin/verif check $P --tier ${TIER:-quick} 2>&1); RC=$?
+  O=$(VERIF_REPO=$WT VERIF_EVIDENCE_DIR=/tmp/ev-wt-$(basename $WT) VERIF_WORKERS=${VERIF_WORKERS:-8} ./bin/verif check $P --tier ${TIER:-quick} 2>&1); RC=$?
   L=$(echo "$O" | grep -E "^violation:" -A1 | tr '\n' ' ' | cut -c1-330)
   [ -z "$L" ] && L=$(echo "$O" | tail -1 | cut -c1-200)
   echo "[check $P] exit=$RC $L"
